@@ -253,6 +253,7 @@ const (
 	PointAcquireAdopt   = "acquire-between-check-and-adoption"
 	PointHeartbeatLoads = "heartbeat-between-leader-check-and-revision-load"
 	PointHeartbeatSnap  = "heartbeat-before-state-snapshot"
+	PointFailedFollow   = "failed-acquisition-between-look-and-follow"
 	PointHeartbeatAns   = "heartbeat-after-update-answer"
 )
 
